@@ -370,6 +370,9 @@ func (in *Interp) branch(fr *frame, site ssa.Instruction, c *Term) bool {
 			panic(inconclusive{fmt.Sprintf("unwinding cap %d hit at %s", in.unwind, in.P.prog.Fset.Position(site.Pos()))})
 		}
 	}
+	if os.Getenv("GOSX_BRANCHLOG") != "" && len(in.taken) >= len(in.prefix) {
+		fmt.Fprintf(os.Stderr, "BRANCH %s\n", in.stack())
+	}
 	return in.fork("if", []*Term{c, in.ts.Not(c)}) == 0
 }
 
@@ -706,7 +709,11 @@ func (in *Interp) visit(fr *frame, instr ssa.Instruction) cont {
 		if ch == nil {
 			panic(unsupported("send on nil channel"))
 		}
+		if ch.Closed {
+			panic(&goPanic{msg: "send on closed channel", stack: in.stack()})
+		}
 		ch.Buf = append(ch.Buf, in.get(fr, x.X))
+		in.gprogress()
 	case *ssa.Store:
 		p := in.get(fr, x.Addr).(Ptr)
 		if p == nil {
@@ -883,14 +890,15 @@ func (in *Interp) unop(fr *frame, x *ssa.UnOp) Value {
 		}
 		var val Value
 		ok := false
+		for len(ch.Buf) == 0 && !ch.Closed {
+			in.gwait("channel receive")
+		}
 		if len(ch.Buf) > 0 {
 			val = ch.Buf[0]
 			ch.Buf = ch.Buf[1:]
 			ok = true
-		} else if ch.Closed {
-			val = in.zero(x.X.Type().Underlying().(*types.Chan).Elem())
 		} else {
-			panic(pathDone{"blocked on channel receive"})
+			val = in.zero(x.X.Type().Underlying().(*types.Chan).Elem())
 		}
 		if x.CommaOk {
 			return Tuple{val, in.ts.Bool(ok)}
@@ -952,7 +960,16 @@ func (in *Interp) binop(op token.Token, xt types.Type, x, y Value, yt types.Type
 					return ts.Bool(a.s >= b.s)
 				}
 			}
-			panic(unsupported("ordering of symbolic strings"))
+			switch op {
+			case token.LSS:
+				return ts.StrLt(a, b)
+			case token.GTR:
+				return ts.StrLt(b, a)
+			case token.LEQ:
+				return ts.Not(ts.StrLt(b, a))
+			default:
+				return ts.Not(ts.StrLt(a, b))
+			}
 		}
 		panic(unsupported("string binop " + op.String()))
 	}
@@ -1611,6 +1628,7 @@ func (in *Interp) callBuiltin(fr *frame, b *ssa.Builtin, args []Value, site ssa.
 		ch := args[0].(*ChanV)
 		if ch != nil {
 			ch.Closed = true
+			in.gprogress()
 		}
 		return nil
 	case "clear":
@@ -1652,13 +1670,35 @@ func (in *Interp) appendSlices(s, y SliceV) Value {
 
 // ---- goroutines / select (minimal) ----
 
-func (in *Interp) goStmt(fr *frame, fn Value, args []Value, site ssa.Instruction) {
-	panic(unsupported("go statement"))
-}
 
 func (in *Interp) selectStmt(fr *frame, x *ssa.Select) Value {
+	for {
+		if v, ok := in.selectOnce(fr, x); ok {
+			return v
+		}
+		in.gwait("select")
+	}
+}
+
+func (in *Interp) selectOnce(fr *frame, x *ssa.Select) (Value, bool) {
 	// Pick the first ready receive state; ticker channels are always ready, done channels when closed.
 	for i, st := range x.States {
+		if st.Dir == types.SendOnly {
+			// sends never block
+			ch, _ := in.get(fr, st.Chan).(*ChanV)
+			if ch == nil {
+				continue
+			}
+			ch.Buf = append(ch.Buf, in.get(fr, st.Send))
+			in.gprogress()
+			res := Tuple{in.ts.BV(64, uint64(i)), in.ts.False()}
+			for _, s2 := range x.States {
+				if s2.Dir == types.RecvOnly {
+					res = append(res, in.zero(s2.Chan.Type().Underlying().(*types.Chan).Elem()))
+				}
+			}
+			return res, true
+		}
 		if st.Dir != types.RecvOnly {
 			continue
 		}
@@ -1696,7 +1736,7 @@ func (in *Interp) selectStmt(fr *frame, x *ssa.Select) Value {
 					}
 				}
 			}
-			return res
+			return res, true
 		}
 	}
 	if !x.Blocking {
@@ -1706,7 +1746,7 @@ func (in *Interp) selectStmt(fr *frame, x *ssa.Select) Value {
 				res = append(res, in.zero(s2.Chan.Type().Underlying().(*types.Chan).Elem()))
 			}
 		}
-		return res
+		return res, true
 	}
-	panic(pathDone{"select blocks forever"})
+	return nil, false
 }
